@@ -183,7 +183,12 @@ impl Session {
                 Ok(Message::Binary(d)) => self.handle_bin(&d),
                 Ok(_) => {}
                 Err(tungstenite::Error::Io(e)) if e.kind() == std::io::ErrorKind::WouldBlock || e.kind() == std::io::ErrorKind::TimedOut => {}
-                Err(_) => return None,
+                Err(e) => {
+                    if std::env::var("VERIF_REM_STDERR").is_ok() {
+                        eprintln!("client read error: {:?}", e);
+                    }
+                    return None;
+                }
             }
         }
         None
@@ -271,7 +276,7 @@ fn run(case: &str) -> String {
     };
     let child = std::process::Command::new(adlt_bin())
         .args(["remote", "-p", &port.to_string()])
-        .stdout(std::process::Stdio::null())
+        .stdout(if std::env::var("VERIF_REM_STDERR").is_ok() { std::process::Stdio::inherit() } else { std::process::Stdio::null() })
         .stderr(if std::env::var("VERIF_REM_STDERR").is_ok() { std::process::Stdio::inherit() } else { std::process::Stdio::null() })
         .spawn()
         .expect("adlt binary");
@@ -309,6 +314,15 @@ fn run(case: &str) -> String {
             None => (false, cmd.trim()),
         };
         let f: Vec<&str> = cmd.split_whitespace().collect();
+        if f[0] == "sleep" {
+            // not a command: the client is silent for a while (the server keeps parsing / filling its channels)
+            let ms: u64 = f.get(1).and_then(|x| x.parse().ok()).unwrap_or(100);
+            let t0 = Instant::now();
+            while t0.elapsed() < Duration::from_millis(ms) {
+                s.drain(Duration::from_millis(20), Duration::from_millis(50));
+            }
+            continue;
+        }
         // searches and lookups are specified on the fully processed stream: let the server catch up first
         if wild {
             s.drain(Duration::from_millis(40), Duration::from_millis(250));
@@ -369,7 +383,7 @@ fn run(case: &str) -> String {
             replies.push("DEAD".to_string());
             continue;
         }
-        match s.read_reply(Duration::from_secs(4)) {
+        match s.read_reply(if big { Duration::from_secs(40) } else { Duration::from_secs(4) }) {
             None => {
                 // no reply: is the connection gone?
                 if s.ws.write_message(Message::Ping(vec![])).is_err() || !s.ws.can_write() {
